@@ -27,6 +27,7 @@ import (
 	"sort"
 	"strconv"
 	"strings"
+	"sync"
 	"syscall"
 	"time"
 
@@ -58,6 +59,7 @@ type c08In struct {
 	Unicode  bool              `json:"unicode_enabled"`     // termunicode.UnicodeEnabled
 	Compare  bool              `json:"compare,omitempty"`   // flat: output compared with the model
 	Blocks   int64             `json:"bar_blocks,omitempty"` // flat bar: termscaler.LengthVal(..) oracle
+	Conc     int               `json:"concurrent,omitempty"` // > 0: concurrent mode, this many goroutines x concIters evaluations over concValues(0..concSets-1)
 	Accum    string            `json:"accum,omitempty"`      // acc | group | sort: the template is the -a / -g / --sort expression of an AccumulatingGroup, groups_hex are the samples
 	Index    *int64            `json:"index,omitempty"`      // accum: the template is exactly {index}
 	Expect   string            `json:"expect,omitempty"`     // "inf": an @for that never ends by its condition must yield <INF>
@@ -83,6 +85,7 @@ type wReq struct {
 	Keys    map[string]string `json:"k"`
 	Color   bool              `json:"c"`
 	Unicode bool              `json:"u"`
+	Conc    int               `json:"n,omitempty"` // > 0: one compiled expression evaluated by this many goroutines at once (see runConc)
 	Accum   string            `json:"a,omitempty"` // "", or acc | group | sort: evaluate Tpl inside an AccumulatingGroup on the samples Groups
 }
 type wResp struct {
@@ -133,6 +136,100 @@ func runOnce(opt bool, req *wReq) (out string, note string, ok bool) {
 		_ = kb.BuildKey(ctx)
 	}
 	return out, "", true
+}
+
+// ---- concurrent mode: rare's extractor workers share ONE compiled expression.  The template is compiled once
+// (optimised, as rare does) and evaluated by `workers` goroutines at the same time, concIters evaluations each, over
+// the ordinary values concValues(i).  A panic in a goroutine is recovered and reported; a fatal error of the runtime
+// (concurrent map writes, ...) kills this worker process and is reported by the parent.  Outputs are also compared
+// with a sequential evaluation of a separately compiled copy (differences are reported in the note).
+const concSets = 512
+const concIters = 5000
+
+func concValues(i int) []string {
+	sec := i % 60
+	min := (i / 60) % 60
+	return []string{
+		fmt.Sprintf("2024-03-%02dT%02d:%02d:%02dZ", 1+i%28, i%24, min, sec), // {0} a timestamp
+		strconv.Itoa((i * 37) % 100),                                       // {1} a small integer
+		fmt.Sprintf("w%d-x%d", i%7, i%3),                                   // {2} a word
+		fmt.Sprintf(`{"a":{"b":%d},"l":[%d,%d]}`, i, i%5, i%11),            // {3} a JSON document
+		fmt.Sprintf("%d.%d", i%1500, i%10),                                 // {4} a decimal
+		fmt.Sprintf("%dh%dm%ds", i%30, min, sec),                           // {5} a duration
+		fmt.Sprintf("/var/log/app%d/file%d.log", i%4, i%9),                 // {6} a path
+		fmt.Sprintf("%d", 1700000000+i*61),                                 // {7} unix seconds
+	}
+}
+
+func runConc(req *wReq) wResp {
+	tpl := unhex(req.Tpl)
+	keys := map[string]string{}
+	for k, v := range req.Keys {
+		keys[unhex(k)] = unhex(v)
+	}
+	sets := make([][]string, concSets)
+	for i := range sets {
+		sets[i] = concValues(i)
+	}
+	var seq []string
+	note, okSeq := func() (n string, ok bool) {
+		defer func() {
+			if e := recover(); e != nil {
+				n, ok = fmt.Sprintf("panic (sequential): %v", e), false
+			}
+		}()
+		kbs, _ := funclib.NewKeyBuilder().Compile(tpl)
+		if kbs == nil {
+			return "Compile returned nil", false
+		}
+		seq = make([]string, concSets)
+		for i := range sets {
+			seq[i] = kbs.BuildKey(&wCtx{sets[i], keys})
+		}
+		return "", true
+	}()
+	if !okSeq {
+		return wResp{"panic", "", note}
+	}
+	kb, _ := funclib.NewKeyBuilder().Compile(tpl)
+	var wg sync.WaitGroup
+	var mu sync.Mutex
+	var panics []string
+	differ := 0
+	for g := 0; g < req.Conc; g++ {
+		wg.Add(1)
+		go func(g int) {
+			defer wg.Done()
+			defer func() {
+				if e := recover(); e != nil {
+					mu.Lock()
+					panics = append(panics, fmt.Sprintf("panic in goroutine %d: %v", g, e))
+					mu.Unlock()
+				}
+			}()
+			ctx := &wCtx{k: keys}
+			d := 0
+			for it := 0; it < concIters; it++ {
+				i := (it*req.Conc + g*131 + it/97) % concSets
+				ctx.g = sets[i]
+				if kb.BuildKey(ctx) != seq[i] {
+					d++
+				}
+			}
+			mu.Lock()
+			differ += d
+			mu.Unlock()
+		}(g)
+	}
+	wg.Wait()
+	if len(panics) > 0 {
+		return wResp{"panic", "", panics[0]}
+	}
+	n := ""
+	if differ > 0 {
+		n = fmt.Sprintf("%d of %d concurrent outputs differ from the sequential ones", differ, req.Conc*concIters)
+	}
+	return wResp{"ok", hx(seq[0]), n}
 }
 
 // the contexts of pkg/aggregation/accumulator.go (rare reduce): the expression is the accumulator (-a), the group
@@ -188,6 +285,14 @@ func workerMain() {
 			color.Enabled = req.Color
 			termunicode.UnicodeEnabled = req.Unicode
 			var resp wResp
+			if req.Conc > 0 {
+				resp = runConc(&req)
+				b, _ := json.Marshal(resp)
+				w.Write(b)
+				w.WriteByte('\n')
+				w.Flush()
+				continue
+			}
 			o1, n1, ok1 := runOnce(true, &req)
 			o2, n2, ok2 := runOnce(false, &req)
 			switch {
@@ -277,7 +382,7 @@ func runImpl(in *c08In) c08Out {
 		theWorker = startWorker()
 	}
 	w := theWorker
-	req := wReq{Tpl: in.Template, Groups: in.Groups, Keys: map[string]string{}, Color: in.Color, Unicode: in.Unicode, Accum: in.Accum}
+	req := wReq{Tpl: in.Template, Groups: in.Groups, Keys: map[string]string{}, Color: in.Color, Unicode: in.Unicode, Accum: in.Accum, Conc: in.Conc}
 	for k, v := range in.Keys {
 		req.Keys[hx(k)] = hx(v)
 	}
@@ -722,6 +827,36 @@ func c08Gen(r *Rng, n int, tier string) []Case {
 		}
 	}
 
+	// 1e. concurrent evaluation (rare's workers share one compiled expression): a fixed list of expressions over every
+	//     helper family with a forwarder or internal state, each compiled once and evaluated by 6 goroutines at once
+	loadFile := concLoadFile()
+	for _, tpl := range concExpressions(loadFile) {
+		in := c08In{Kind: "conc", Conc: 6, Template: hx(tpl), Text: readable(tpl), Keys: map[string]string{"k": "2", "lim": "3"}, Unicode: true}
+		add(in, []string{"concurrent"}, false, true)
+	}
+	// divi / modi with three and more operands: a zero in every later position, constants and groups
+	for _, fn := range []string{"divi", "modi"} {
+		for arity := 2; arity <= 5; arity++ {
+			for zero := 1; zero < arity; zero++ {
+				for _, cst := range []bool{true, false} {
+					args := make([]c08Arg, arity)
+					for i := range args {
+						v := strconv.Itoa(7 + 3*i)
+						if i == zero {
+							v = "0"
+						}
+						args[i] = c08Arg{Const: cst, Val: hx(v), Text: v}
+					}
+					in, tags, heavy := mkCall("call", fn, args, false, true)
+					add(in, append(tags, "zero-divisor"), heavy, true)
+				}
+			}
+		}
+	}
+	if loadFile != "" {
+		defer os.Remove(loadFile)
+	}
+
 	// 1d. the contexts of `rare reduce` (pkg/aggregation/accumulator.go): group numbers of every magnitude and sign in
 	//     the accumulator (-a), group (-g) and sort (--sort) expression of an AccumulatingGroup, through the library API
 	for _, ac := range accumCases(r, 20+n/40) {
@@ -916,6 +1051,49 @@ func genNested(r *Rng, names []string) (c08In, []string) {
 	_, _ = neg, key
 	tags = append(tags, textTags(tpl)...)
 	return in, tags
+}
+
+// ---- concurrent mode: the expressions
+// a small table file for {load ..}; "" when it cannot be written (the expression is then left out)
+func concLoadFile() string {
+	dir := os.Getenv("VERIF_WORK")
+	if dir == "" {
+		dir = os.TempDir()
+	}
+	p := filepath.Join(dir, "c08_table.txt")
+	if os.WriteFile(p, []byte("w0-x0 zero\nw1-x1 one\n# comment\nw2-x2 two\n"), 0o644) != nil {
+		return ""
+	}
+	return p
+}
+
+func concExpressions(loadFile string) []string {
+	l := []string{
+		// time helpers: explicit, auto-detecting (every value) and caching (first value) modes, zones
+		"{time {0}}", "{time {0} auto}", "{time {0} cache}", "{time {0} RFC3339}", "{time {0} auto utc}",
+		"{buckettime {0} minute}", "{buckettime {0} hour auto}", "{buckettime {0} day cache}", "{buckettime {0} month RFC3339 America/New_York}",
+		"{timeformat {7} RFC3339}", "{timeformat {time {0} auto} NGINX utc}", "{timeattr {time {0}} weekday}", "{timeattr {7} yearweek utc}",
+		"{duration {5}}", "{durationformat {1}}",
+		// printf, gjson, tables
+		"{format \"%s-%5d|%v\" {2} {1} {4}}", "{format \"%v %%\" {0}}", "{json {3} a.b}", "{json {3} \"l.#\"}{json {3} l.1}",
+		"{lookup {2} \"w0-x0 zero\\nw1-x1 one\\nw2-x2 two\"}", "{haskey {2} \"w1-x1\\nw3-x0\"}",
+		// binders and array helpers (pooled sub-contexts)
+		"{@map {@split {2} -} \"{upper {0}}{k}\"}", "{@filter {@ {1} {2} {4}} {isnum {0}}}", "{@reduce {@ {1} {1} 5} {sumi {0} {1}}}",
+		"{@for 0 {lt {1} 5} {sumi {0} {1}}}", "{@join {@slice {@split {0} :} 1 2} +}", "{@select {@split {0} :} 1}-{@len {@split {3} ,}}",
+		"{@in {2} {@ w1-x1 w3-x0}}{@range 0 {1} 7}",
+		// drawing, humanize
+		"{repeat = {1}}", "{bar {1} 100 20}", "{bar {1} 100 20 log10}", "{color red {2}}",
+		"{hi {7}}", "{hf {4}}", "{bytesize {7} 2}", "{bytesizesi {7}}{downscale {7}}", "{percent {4} 1 0 1500}",
+		// formulas
+		"{! [1] * 2 + [4]}", "{! round([4] / 3) % 7}", "{! sqrt(abs([4])) << 2}",
+		// scalar helpers
+		"{sumi {1} 1}{divi {7} 3}{modi {7} {1}}", "{substr {0} 0 10}-{select {6} 0}", "{csv {0} {2} {3}}", "{if {gt {4} 50} hi lo}{switch {eq {2} w1-x1} a {eq {2} w2-x2} b c}",
+		"{upper {2}}{lower {2}}{basename {6}}{extname {6}}", "{expbucket {7}}-{bucket {1} 10}-{clamp {1} 10 50}",
+	}
+	if loadFile != "" {
+		l = append(l, "{lookup {2} {load "+loadFile+"}}")
+	}
+	return l
 }
 
 // ---- accumulator / group / sort contexts
@@ -1450,6 +1628,7 @@ func main() {
 			"(1b) {! ..} formulas: every key of stdmath ops / uniOps (read from the source) x both operand positions x the float pool (0, -0, 1e308, NaN, +-Inf, non-zero magnitudes below 1 such as 0.5, -0.25, 1e-300, 5e-324, neighbours of +-1 and +-2^63, non-integers 2.5, -1.5, shift counts around 64), operands as constants (folded at compile time) and as group references; " +
 			"(1c) arguments parsed as a small language by a library (printf formats of format, layouts / zones / bucket and attribute names of the time helpers, gjson paths, durations, @split delimiters, lookup tables): every truncated or unpaired tail (lone %, %-, %5, %., %[, quotes, brackets, backslashes) after plain prefixes, as a template constant and via a group, plus random strings of each grammar; " +
 			"(1d) the accumulator, group and sort contexts of rare reduce (aggregation.AccumulatingGroup through the library API): group numbers 0..5, negative, +-2^31, 2^32, 10^8, MinInt64, MaxInt64 in the -a / -g / --sort expression, alone (value predicted) and inside helpers; " +
+			"(1e) concurrent mode: a fixed list of ~47 expressions over every helper family with a forwarder or internal state (time / buckettime in explicit, auto and cache mode, timeformat, timeattr, duration, format, json, lookup / haskey / load tables, the @ binders, repeat / bar / color, hi / hf / bytesize / downscale / percent, {! ..}, scalar helpers), each compiled once and evaluated by 6 goroutines at once, 5000 evaluations each over 512 ordinary value sets, in the sandboxed worker (a runtime fatal error kills the worker and is the outcome of the case); divi / modi with 2..5 operands and a zero in every later position; " +
 			"(0) the inputs of the recorded findings. Non-trivial: an argument is a boundary value, or the case is nested / malformed. Distinct: by " +
 			"(template, groups, keys, colour/unicode switches).",
 		Gen:    c08Gen,
